@@ -120,14 +120,14 @@ def run(ctx):
     attrs_of = {}
     for c in classes:
         mt = class_const(prog, c, '_messageType')
-        okh, rows = try_py(class_const(prog, c, '_headerAttrs'))
+        okh, rows = header_rows(prog, c)
         if not okh or not is_const(mt):
             raise AnalysisError('%s: _headerAttrs/_messageType not constant'
                                 % c.qualname)
         attrs_of[c.qualname] = rows
         req = set()
         for row in rows:
-            attr, code, required = row
+            attr, code, required = row[:3]
             okr = spec.HEADER_FIELDS.get(code, (None,))[0] == attr and \
                 hcode.get(code) == attr
             ctx.ob('C03.D1', c.qualname, 'row:%s' % attr, okr,
@@ -164,6 +164,33 @@ def run(ctx):
     ctx.floor('C03.D5', 3)
     ctx.floor('C03.D6', 4)
     ctx.floor('C03.D7', 8)
+
+
+def header_rows(prog, c):
+    """(ok, rows) of a message class's header table: each row's first three
+    columns (attribute, code, required) as Python values; further columns
+    (e.g. a wrapper class per field) are left to the interpreter."""
+    t = class_const(prog, c, '_headerAttrs')
+    ok, rows = try_py(t)
+    if ok:
+        return (isinstance(rows, (list, tuple)) and
+                all(isinstance(r, (list, tuple)) and len(r) >= 3
+                    for r in rows)), rows
+    if kind(t) not in ('list', 'tuple'):
+        return False, None
+    out = []
+    for x in t[1]:
+        x = x[1] if kind(x) == 'item' else x
+        if is_const(x) and isinstance(x[1], tuple):
+            cols = [C(v) for v in x[1]]
+        elif kind(x) in ('tuple', 'list'):
+            cols = [y[1] if kind(y) == 'item' else y for y in x[1]]
+        else:
+            return False, None
+        if len(cols) < 3 or not all(is_const(y) for y in cols[:3]):
+            return False, None
+        out.append(tuple(y[1] for y in cols[:3]))
+    return True, out
 
 
 def wrapper_sig(prog, t):
@@ -316,7 +343,7 @@ def marshal_rules(ctx, c, mfi, paths, selft, skip_typing=False):
                     if (cname, name) in seen_fields:
                         continue
                     # does this class ever carry that field?
-                    okh, rows = try_py(class_const(prog, c, '_headerAttrs'))
+                    okh, rows = header_rows(prog, c)
                     names = [r[0] for r in rows] + ['unix_fds']
                     if name not in names:
                         continue
@@ -542,7 +569,7 @@ def header_typing_unrolled(ctx, c, mfi):
     when the table does not unroll (the summarised loop is used instead)."""
     prog = ctx.prog
     selft = ('param', 'self')
-    okh, rows = try_py(class_const(prog, c, '_headerAttrs'))
+    okh, rows = header_rows(prog, c)
     if not okh:
         return False
     names = [r[0] for r in rows] + ['unix_fds']
